@@ -86,8 +86,11 @@ def gen_case(rnd, prop, tier):
             ops.append(['many', [gen_query(rnd, attrs, cliques) for _ in range(rnd.randint(1, 4))]])
         elif r < 0.77:
             ops.append(['krondot', rnd.getrandbits(32), [rnd.randint(1, 3) for _ in attrs]])
-        elif r < 0.85:
+        elif r < 0.83:
             ops.append(['datavector', rnd.random() < 0.5])
+        elif r < 0.88:
+            # new parameters on the same object (in place / item assignment / another total), immediately followed by a bulk query
+            ops.append(['reparam', rnd.choice(['iadd', 'assign', 'total']), rnd.getrandbits(32), [gen_query(rnd, attrs, cliques) for _ in range(rnd.randint(1, 3))]])
         else:
             fault = None
             if fsmode == 'faulty' and rnd.random() < 0.7:
@@ -95,7 +98,7 @@ def gen_case(rnd, prop, tier):
                 fault = [k, rnd.choice([0, 1, 17, 200, 1000, 5000])] if k != 'read-error' else [k]
             ops.append(['saveload', fault])
     return dict(engine='B', attrs=attrs, sizes=sizes, cliques=cliques, kind=kind, pots=pots, total=total, elim=elim,
-                source=source, fresh_names=rnd.random() < 0.3, est_iters=rnd.choice([1, 3, 8]), est_seed=rnd.getrandbits(32), fsmode=fsmode, ops=ops, fold=rnd.choice(['harness', 'combine']))
+                source=source, fresh_names=rnd.random() < 0.3, est_solver=rnd.choice(['MD', 'MD', 'RDA', 'IG']), est_iters=rnd.choice([1, 3, 8]), est_seed=rnd.getrandbits(32), fsmode=fsmode, ops=ops, fold=rnd.choice(['harness', 'combine']))
 
 
 def sample_view(case):
@@ -124,7 +127,9 @@ def make_model(mbi, case):
             meas.append((None, y, 1.0, tuple(cl)))
         eng = mbi.FactoredInference(dom, iters=case['est_iters'], elim_order=case['elim'])
         try:
-            model = eng.estimate(meas, total=case['total'], engine='MD')
+            import contextlib, io
+            with contextlib.redirect_stdout(io.StringIO()):
+                model = eng.estimate(meas, total=case['total'], engine=case.get('est_solver', 'MD'))
         except Exception as e:
             raise Violation('no-exception', 'exception:estimate:%s' % type(e).__name__, 'estimate raised %s: %s' % (type(e).__name__, e))
         return model
@@ -240,6 +245,29 @@ def run_case(case, prop):
                             viol.append(Violation('answer-value', 'answer-value:datavector', 'datavector differs from the explicit joint by %.3g (%s)' % (refmodel.maxerr(got, want), tag)).as_dict())
                         digests.append(core.arr_digest(got))
                         kinds.append('d')
+                    elif kind == 'reparam':
+                        r = random.Random(op[2])
+                        if op[1] == 'total':
+                            new_total = total * r.choice([0.5, 2.0, 2.5])
+                            model.total = new_total
+                            P = P * (new_total / total)
+                            total = new_total
+                        else:
+                            cl0 = model.cliques[r.randrange(len(model.cliques))]
+                            shp = model.potentials[cl0].values.shape
+                            delta = np.array([r.gauss(0, 1.0) for _ in range(int(np.prod(shp)))]).reshape(shp)
+                            if op[1] == 'iadd':
+                                model.potentials[cl0] += mbi.Factor(model.potentials[cl0].domain, delta)
+                            else:
+                                model.potentials[cl0] = mbi.Factor(model.potentials[cl0].domain, model.potentials[cl0].values + delta)
+                            P = explicit_joint(model, attrs, sizes, total)
+                        faults['parameters-changed-then-bulk-query'] = faults.get('parameters-changed-then-bulk-query', 0) + 1
+                        qs = [tuple(q) for q in op[3]]
+                        res = model.calculate_many_marginals(qs)
+                        for q in qs:
+                            if q in res:
+                                check_answer('many', list(q), res[q], P, attrs, total, viol, tag + ' after %s' % op[1])
+                        kinds.append('r' + op[1][0])
                     elif kind == 'saveload':
                         model = do_saveload(mbi, model, fs, op[1], oi, viol, faults, probes)
                         kinds.append('s' + (op[1][0][0] if op[1] else ''))
@@ -360,6 +388,8 @@ def shrink(case, prop):
                     op[1] = [x for x in op[1] if x != a]
                 elif op[0] == 'many':
                     op[1] = [[x for x in q if x != a] for q in op[1]]
+                elif op[0] == 'reparam':
+                    op[3] = [[x for x in q if x != a] for q in op[3]]
                 elif op[0] == 'krondot':
                     del op[2][i]
             yield c
@@ -393,6 +423,8 @@ def shrink(case, prop):
                 op[1] = [m[x] for x in op0[1]]
             elif op[0] == 'many':
                 op[1] = [[m[x] for x in q] for q in op0[1]]
+            elif op[0] == 'reparam':
+                op[3] = [[m[x] for x in q] for q in op0[3]]
     c = gen.canon_names(case, extra=ren)
     if c is not None:
         yield c
